@@ -255,6 +255,10 @@ PROMOTE_THEOREMS = ["tables_are_complete", "typecheck_model_matches_tables",
 def table_obligations(ctx):
     """Re-check Arith/PromoteProofs.v against the freshly generated tables and register the
     tie obligations (model = tables).  Returns (ok, log)."""
+    # the files PromoteProofs.v imports (Gen/ConvTables.vo, Gen/OpSelect.vo, Arith/*.vo) may not be compiled yet
+    # (fresh clone without bin/setup, or tables just regenerated): make builds what is missing or stale; the
+    # re-check itself is the explicit coqc below
+    common.coq_make(["Arith/PromoteProofs.vo"])
     with common.Lock("coq"):
         rc, so, se = common.sh("coqc -Q . NV Arith/PromoteProofs.v", cwd=common.COQ, timeout=600)
     log = (so + se)[-3000:]
